@@ -131,3 +131,67 @@ def mutates_field(prog, g, field_suffix, depth=0, _seen=None):
             if r:
                 return r
     return None
+
+
+def snapshot_dispatch(prog, f, member_suffix):
+    """A7(ii): range-for loops over a *local copy* of a member container (or of an element of it) whose body
+    calls a method on the loop element that reaches user code.  Returns list of dicts
+    {loop, call, ok, why}; ok means the call is lexically guarded by a look-up of the element in the
+    live container (the member itself, or a local re-resolved from the member inside the loop body)."""
+    from . import rd
+    out = []
+    for l in range_loops(f):
+        x = f.s(f.strip_casts(l['range']))
+        if not (x and x['k'] == 'DeclRefExpr' and x.get('dk') == 'Var'):
+            continue
+        # the copy: a by-value local whose initialiser reads the member (directly or through an iterator obtained from it)
+        dd = None
+        for st in f.stmts:
+            if st and st['k'] == 'DeclStmt':
+                for d in st['decls']:
+                    if d.get('d') == x['d'] and 'init' in d and not d.get('t', '').rstrip().endswith('&'):
+                        dd = d
+        if dd is None:
+            continue
+
+        def from_member(sid, depth=0):
+            for y in f.walk(sid):
+                sy = f.stmts[y]
+                if sy['k'] == 'MemberExpr' and sy.get('mk') == 'field' and sy['q'].endswith(member_suffix):
+                    return True
+                if depth < 2 and sy['k'] == 'DeclRefExpr' and sy.get('dk') == 'Var':
+                    for dfn in rd.local_defs(f, sy['d']):
+                        if dfn['rhs'] is not None and from_member(dfn['rhs'], depth + 1):
+                            return True
+            return False
+        if not from_member(dd['init']):
+            continue
+        lv = l.get('lvd')
+        body = set(f.walk(l['body']))
+        for c in f.calls():
+            if c['i'] not in body or 'obj' not in c:
+                continue
+            o = f.s(f.strip_casts(c['obj']))
+            if not (o and o.get('d') == lv):
+                continue
+            if not any(reaches_user(prog, t) for t in callee_funcs(prog, c)):
+                continue
+            ok = False
+            for cond, br in q.lexical_guards(f, c['i']):
+                if br != 'then' or cond not in body and not (set(f.walk(cond)) & body):
+                    continue
+                elem_ref = any(f.stmts[y]['k'] == 'DeclRefExpr' and f.stmts[y].get('d') == lv for y in f.walk(cond))
+                finder = any(cc.get('callee', '').startswith(('std::find', 'std::count', 'std::any_of')) or cc.get('fn') in ('find', 'count') for cc in q.subtree_calls(f, cond))
+                live = False
+                for y in f.walk(cond):
+                    sy = f.stmts[y]
+                    if sy['k'] == 'MemberExpr' and sy.get('mk') == 'field' and sy['q'].endswith(member_suffix):
+                        live = True
+                    if sy['k'] == 'DeclRefExpr' and sy.get('dk') == 'Var' and sy.get('d') not in (lv, x['d']):
+                        for dfn in rd.local_defs(f, sy['d']):
+                            if dfn['rhs'] is not None and dfn['sid'] in body and from_member(dfn['rhs']):
+                                live = True
+                if elem_ref and finder and live:
+                    ok = True
+            out.append({'loop': l, 'call': c, 'ok': ok})
+    return out
